@@ -99,6 +99,11 @@ pub enum Wrap {
     },
     /// `x=$(PIPELINE > >(simcat 64))`: a process substitution inside a command substitution
     CmdSubstProcOut,
+    /// PIPESTATUS read after a compound command around, or a status-transparent command after,
+    /// the pipeline: 0 `{ P; }`, 1 `if true; then P; fi`, 2 `for _g in 1; do P; done`,
+    /// 3 `P` then a function definition, 4 `P` then `for _e in; do :; done`, 5 `P` then
+    /// `case a in a) ;; esac`
+    Compound(u8),
     Backquote,
     InFunction,
     Bang,
@@ -314,6 +319,18 @@ pub fn render(case: &Case) -> String {
         }
         Wrap::InFunction => {
             s.push_str(&format!("wrapf() {{ {pipeline}; }}\nwrapf\nprobe fn\n"));
+        }
+        Wrap::Compound(k) => {
+            let text = match k {
+                0 => format!("{{ {pipeline}; }}"),
+                1 => format!("if true; then {pipeline}; fi"),
+                2 => format!("for _g in 1; do {pipeline}; done"),
+                3 => format!("{pipeline}\nlater_def() {{ :; }}"),
+                4 => format!("{pipeline}\nfor _e in; do :; done"),
+                _ => format!("{pipeline}\ncase a in a) ;; esac"),
+            };
+            s.push_str(&text);
+            s.push_str("\nprobe st \"${PIPESTATUS[*]}\"\n");
         }
         Wrap::CmdSubstProcOut => {
             s.push_str(&format!("x=$({pipeline} > >(simcat 64))\nprobe cs\nprintf '%s|' \"$x\"\n"));
@@ -638,7 +655,8 @@ impl C11 {
             };
             (((want / line) as u32).min(999), pad)
         };
-        let tag = ["A", "B", "L"][rng.below(3) as usize].to_string();
+        // (a two-byte UTF-8 tag, except where `read -n/-N/-d` count bytes against the model)
+        let tag = if class != "shared-read" && rng.below(5) == 0 { "ü".to_string() } else { ["A", "B", "L"][rng.below(3) as usize].to_string() };
         let (n, pad, capacity) = if class == "real-size" {
             let pad = 60u32;
             let bytes = rng.range(66_000, if tier == Tier::Thorough { 300_000 } else { 140_000 });
@@ -759,6 +777,7 @@ impl C11 {
                 5 => Wrap::Background,
                 7 => Wrap::BgProcSubstIn { read_loop: rng.below(2) == 0 },
                 8 => Wrap::CmdSubstProcOut,
+                9 => Wrap::Compound(rng.below(6) as u8),
                 6 => Wrap::AndOr { and: rng.below(2) == 0 },
                 _ => Wrap::None,
             },
@@ -781,7 +800,14 @@ impl C11 {
             // per-line writes of the source plus block copies of the other stages
             20_000 + (n as u64) * 6 + (bytes / 256) * (nstages as u64) * 4
         } else {
-            2_000 + bytes * (nstages as u64) * 8
+            // every copying participant moves every byte at least once; process substitutions
+            // written inside stages or wrapped around the pipeline add participants, a stage
+            // that also writes to stderr doubles the payload, and `read`-driven consumers spend
+            // several steps per line
+            let extra: u64 = stages.iter().filter(|st| matches!(st.body, Body::ProcCat | Body::SubstCat | Body::EchoVar | Body::Mapfile)).count() as u64
+                + u64::from(matches!(wrap, Wrap::ProcSubstIn | Wrap::ProcSubstOut | Wrap::BgProcSubstIn { .. } | Wrap::CmdSubstProcOut | Wrap::NestedCmdSubst | Wrap::Background)) * 2;
+            let doubled = if stages.first().is_some_and(|st| st.body == Body::LoopBoth) { 3 } else { 1 };
+            5_000 + bytes * doubled * (nstages as u64 + extra) * 24
         };
         if class == "real-size" {
             cfg.short_read_pm = 0;
@@ -953,6 +979,10 @@ pub fn judge(case: &Case) -> Verdict {
         let mut want = overall_status(&ps, case.pipefail);
         if case.wrap == Wrap::Bang {
             want = if want == 0 { 1 } else { 0 };
+        }
+        if matches!(case.wrap, Wrap::Compound(k) if k >= 3) {
+            // `$?` is that of the definition / empty loop / empty case after the pipeline
+            want = 0;
         }
         if status != want {
             v.violation = Some(viol("C11/status/overall", format!("$?={status}, PIPESTATUS={ps:?}, pipefail={}, bang={}; want {want}; script={script:?}", case.pipefail, case.wrap == Wrap::Bang), None));
